@@ -23,7 +23,7 @@ LEVEL = "exploration"
 N_STEPS = 6
 DT = 0.2
 EPSRELS = [1e-5, 1e-8]
-CTOL = 20.0                  # tolerance = CTOL * epsrel * n     (DESIGN 2.7; head-room measured in run())
+CTOL = 40.0                  # tolerance = CTOL * epsrel * n     (DESIGN 2.7; head-room measured in run())
 SAME_PT_TOL = 1e-12          # prefix of one and the same process tensor: same contraction, no truncation involved
 MIN_INFLUENCE = 0.05
 STARTS = [0.0, -0.3, 1.7]
